@@ -523,7 +523,7 @@ void f_replace_string (void) {
                   *dst2++ = *src++;
                 }
             }
-          memcpy (dst2, src, slimit - src);
+          memmove (dst2, src, slimit - src);	/* in place: the regions overlap when the text got shorter */
           dst2 += (slimit - src);
           *dst2 = 0;
           arg->u.string = extend_string (dst1, dst2 - dst1);
@@ -538,7 +538,10 @@ void f_replace_string (void) {
                     {
                       cur++;
                       if (cur < first)
-                        continue;
+                        {
+                          src++;	/* not advancing here re-counted the same byte (and spun 2^64 times for first == -1) */
+                          continue;
+                        }
                       *src = *replace;
                       if (cur > last)
                         break;
@@ -595,9 +598,17 @@ void f_replace_string (void) {
             {
               if ((skip = skip_table[(unsigned char) src[probe]]))
                 {
+                  /* the bytes copied here count against the size of dst1 like all others */
+                  if (CONFIG_INT (__MAX_STRING_LENGTH__) - dlen <= skip)
+                    {
+                      pop_n_elems (st_num_arg);
+                      push_svalue (&const0u);
+                      FREE_MSTR (dst1);
+                      return;
+                    }
                   for (climit = dst2 + skip; dst2 < climit; *dst2++ = *src++)
                     ;
-
+                  dlen += skip;
                 }
               else if (memcmp (src, pattern, plen) == 0)
                 {
